@@ -60,6 +60,16 @@ def main():
             if a.replay:
                 return dbgchecks.replay(prop, a.replay)
             return dbgchecks.run(prop, a.tier, seed)
+        if prop == "C13":
+            from hv import clichecks
+            if a.replay:
+                return clichecks.replay(prop, a.replay)
+            return clichecks.run(prop, a.tier, seed)
+        if prop == "C03":
+            from hv import compchecks
+            if a.replay:
+                return compchecks.replay(prop, a.replay)
+            return compchecks.run(prop, a.tier, seed)
         print("unknown property", prop)
         return 2
     except C.BuildError as e:
